@@ -30,6 +30,7 @@ def _one(args):
     prop, m, repo = args
     sys.path.insert(0, os.path.dirname(os.path.abspath(__file__)))
     mod = importlib.import_module("p" + prop)
+    core.QUIET = True
     tmp = tempfile.mkdtemp(prefix=f"verif-mut-{prop}-")
     try:
         shutil.copytree(os.path.join(repo, "src"), os.path.join(tmp, "src"))
